@@ -343,3 +343,25 @@ def run(chk: Check, eng: Engine) -> None:
         else:
             chk.bad("R12-c", eng.relfile(new_parse), ln, where, f"self.{attr} is written during a parse but not reset by new_parse",
                     "state of an earlier parse (another input, an abandoned iteration) leaks into the next one", keyparts=f"not-reset|{attr}")
+
+
+# ------------------------------------------------------------------ self-test variants
+from ..mutants import M  # noqa: E402
+
+_P = "src/fandango/language/grammar/parser/parser.py"
+_IP = "src/fandango/language/grammar/parser/iterative_parser.py"
+MUTANTS = [
+    M("store-inside-loop", _P, "            forest.append(tree)\n", "            forest.append(tree)\n            self._cache[cache_key] = forest\n", "R12-a"),
+    M("store-in-finally", _P, "        forest = []\n        for tree in self._parse_forest(", "        forest = []\n        self._cache[cache_key] = forest\n        for tree in self._parse_forest(", "R12-a"),
+    M("yield-cached-object", _P, "                yield deepcopy(tree)\n", "                yield tree\n", "R12-b"),
+    M("hit-path-no-copy", _P, "            for tree in forest:\n                tree = deepcopy(tree)\n", "            for tree in forest:\n", "R12-b"),
+    M("collapse-shares-tags", _IP, "                origin_repetitions=list(tree.origin_repetitions),\n            )\n        ]", "                origin_repetitions=tree.origin_repetitions,\n            )\n        ]", "R12-b"),
+    M("hit-path-drops-controlflow", _P, "                if include_controlflow:\n                    yield tree\n                else:\n                    collapsed = self.collapse(tree)\n                    if collapsed is not None:\n                        yield collapsed\n            return",
+      "                if not include_controlflow:\n                    collapsed = self.collapse(tree)\n                    if collapsed is not None:\n                        yield collapsed\n            return", "R12-d"),
+    M("new-parse-keeps-incomplete", _IP, "        self._incomplete.clear()\n        self._max_position = -1\n", "        self._max_position = -1\n", "R12-c"),
+    M("new-parse-keeps-first-consume", _IP, "        self._first_consume = True\n        self._incomplete.clear()", "        self._incomplete.clear()", "R12-c"),
+]
+TWINS = [
+    M("twin-comment-and-blank", _P, "        self._cache[cache_key] = forest\n", "\n        # store the complete forest\n        self._cache[cache_key] = forest\n", None),
+    M("twin-copy-call", _P, "                yield deepcopy(tree)\n", "                cp = deepcopy(tree)\n                yield cp\n", None),
+]
